@@ -66,7 +66,12 @@ def infer_redirection(url, recursive=True):
 
             # Basic relative url
             elif potential_target.startswith("/"):
-                target = urljoin(url, potential_target)
+                # NOTE: urljoin raises on unbalanced brackets in a netloc
+                # (e.g. `http://a.com/?u=//[x`): nothing can be inferred then
+                try:
+                    target = urljoin(url, potential_target)
+                except ValueError:
+                    pass
 
             # Idiotic youtube redirections
             elif "youtube.com/redirect?" in url:
